@@ -16,7 +16,7 @@ BUILDS = {'quick': [('k160', 'stone5'), ('b248', 'stone5')],
 RULE = ('honest instances from the Lean spec builder: heights 0..8 (quick) / 0..12 (thorough), n_verifier_friendly 0..h+2 and huge, '
         'query shapes single/adjacent/all/sparse/dense; each followed by its single-site corruptions: every queried value (+1), '
         'an index moved to a neighbour, every consumed sibling (+1), root (+1), last sibling missing, one extra trailing node, '
-        'duplicate index, unsorted indices, index out of range, empty query list, height / last index raised by 2^32, 2^64, 2^128. distinct = distinct case lines; non-trivial = height >= 1.')
+        'duplicate index, unsorted indices, index out of range, empty query list, height / last index raised by 2^32, 2^64, 2^128; a sibling / value / root raised by 2^160, 2^200, 2^248, 2^250. Tall sparse trees: heights 20..250 x friendly 0, h/2, h+1 x query shapes (single, sibling pair, low 64-bit limb zero, spread, last leaf) with random siblings, honest root from the Lean model; honest + root/value/sibling corruptions, half the siblings missing. distinct = distinct case lines; non-trivial = height >= 1.')
 ASSUMPTIONS = ['Keccak-256/Blake2s-256/Poseidon are modelled (executable Lean), compared with the real crates on every case',
                'a hash collision among the random test values is treated as impossible by the oracle']
 TRUSTED = ['Python oracle: honest/extra-trailing => Ok; value/sibling/root corrupted, sibling missing, index moved to a different leaf => not Ok']
@@ -83,6 +83,14 @@ def cases(rng, tier, feats, drv_ok):
             add('sibling+1', 'reject', a=auths[:j] + [(auths[j] + 1) % P] + auths[j + 1:])
         if auths:
             add('sibling-missing', 'reject', a=auths[:-1])
+        # high-bit aliases of hash-valued positions: a node differing only above the digest width (160 / 248 bits) must not be accepted
+        for e in (160, 200, 248, 250):
+            if auths:
+                j = rng.below(len(auths))
+                add(f'sibling+2^{e}', 'reject', a=auths[:j] + [(auths[j] + (1 << e)) % P] + auths[j + 1:])
+            j = rng.below(len(Q))
+            add(f'value+2^{e}', 'reject', v=vals[:j] + [(vals[j] + (1 << e)) % P] + vals[j + 1:])
+        add('root+2^248', 'reject', r=(root + (1 << 248)) % P)
         if h >= 1:
             j = rng.below(len(Q)); q2 = Q[j] ^ 1
             if q2 not in Q:
@@ -97,6 +105,42 @@ def cases(rng, tier, feats, drv_ok):
         for w in (32, 64, 128):   # heights / indices congruent to the honest ones modulo a machine word
             add(f'height+2^{w}', 'reject', hh=h + (1 << w))
             add(f'index+2^{w}', 'any', idx=Q[:-1] + [Q[-1] + (1 << w)])
+    # TALL sparse trees (heights up to 250): queried leaves and random siblings along their paths; the honest root is the one the
+    # Lean model computes (vroot; the C04 theorems hold at every height), the real code must accept it and reject every corruption
+    def auth_count(Q, h):
+        queue = [q + (1 << h) for q in Q]; n = 0
+        while queue:
+            cur = queue.pop(0)
+            if cur == 1: break
+            if cur % 2 == 0 and queue and queue[0] == cur + 1: queue.pop(0)
+            else: n += 1
+            queue.append(cur // 2)
+        return n
+    tall = []
+    for h in ([20, 40, 62, 63, 64, 65, 80, 128, 250] if tier == 'quick' else [20, 33, 40, 62, 63, 64, 65, 66, 80, 100, 127, 128, 129, 200, 250]):
+        for nf in (0, h // 2, h + 1):
+            shapes_ = {'single': [rng.below(1 << h)], 'pair': [2 * rng.below(1 << (h - 1))], 'low-limb-zero': [rng.below(1 << max(1, h - 64)) << 64 if h > 64 else 0],
+                       'spread': sorted({rng.below(1 << h) for _ in range(3)}), 'top': [(1 << h) - 1]}
+            shapes_['pair'] = [shapes_['pair'][0], shapes_['pair'][0] + 1]
+            for shape, Q in shapes_.items():
+                if tier == 'quick' and rng.chance(1, 2): continue
+                vals = [rng.felt() for _ in Q]; auths = [rng.felt() for _ in range(auth_count(Q, h))]
+                tall.append((h, nf, Q, vals, auths, shape))
+    if tall and drv_ok:
+        ro, _ = fw.run_split(lambda ls, **kw: fw.run_drv(feats, ls), [f'vroot {h:x} {nf:x} {hexl(Q)} {hexl(v)} {hexl(a)}' for h, nf, Q, v, a, _ in tall])
+        for (h, nf, Q, vals, auths, shape), o in zip(tall, ro):
+            if not o.startswith('ok '):
+                raise fw.Broken('prover', f'vroot failed on a tall sparse instance (h={h}): {o[:120]}')
+            root = int(o.split()[1], 16)
+            def addt(kind, expect, r=root, v=vals, a=auths, idx=Q):
+                out.append({'line': line(r, h, nf, idx, v, a), 'kind': 'tall:' + kind, 'expect': expect, 'h': h, 'shape': shape})
+            addt('honest', 'ok'); addt('root+1', 'reject', r=(root + 1) % P)
+            j = rng.below(len(Q)); addt('value+1', 'reject', v=vals[:j] + [(vals[j] + 1) % P] + vals[j + 1:])
+            for j in sorted({0, len(auths) // 2, len(auths) - 1}):
+                addt('sibling+1', 'reject', a=auths[:j] + [(auths[j] + 1) % P] + auths[j + 1:])
+            addt('sibling-missing', 'reject', a=auths[:-1])
+            addt('half-the-siblings', 'reject', a=auths[:len(auths) // 2])
+            addt('index+2^64', 'any', idx=Q[:-1] + [(Q[-1] + (1 << 64)) % P])
     # adversarial field-sized heights / indices: no panic, model agreement only
     for _ in range(20):
         out.append({'line': line(rng.felt(), rng.edge_felt(), rng.edge_felt(), [rng.edge_felt()], [rng.felt()], [rng.felt() for _ in range(rng.below(4))]),
